@@ -125,9 +125,34 @@ impl PanicInfo {
     /// file (repository relative) + message with digit runs collapsed; no line number, so that
     /// the signature survives unrelated edits of the file
     pub fn signature(&self) -> String {
+        // collapse parenthesised / bracketed groups (they hold run-specific values), then digits
+        let mut flat = String::new();
+        let mut depth = 0i32;
+        for c in self.msg.chars() {
+            match c {
+                '(' | '[' => {
+                    if depth == 0 {
+                        flat.push(c);
+                        flat.push_str("..");
+                    }
+                    depth += 1;
+                },
+                ')' | ']' => {
+                    depth -= 1;
+                    if depth == 0 {
+                        flat.push(c);
+                    }
+                    if depth < 0 {
+                        depth = 0;
+                    }
+                },
+                _ if depth > 0 => {},
+                _ => flat.push(c),
+            }
+        }
         let mut m = String::new();
         let mut last_digit = false;
-        for c in self.msg.chars() {
+        for c in flat.chars() {
             if c.is_ascii_digit() {
                 if !last_digit {
                     m.push('#');
